@@ -16,7 +16,8 @@ CONSTANTS M,         \* non-root changes 1..M
           MaxTs,     \* timestamps 1..MaxTs
           Classes,   \* payload classes used
           MaxBad,    \* at most this many changes of a class other than "ok"
-          Emit       \* TRUE: print one CASE line per graph
+          Emit,      \* TRUE: print one CASE line per graph ...
+          EmitMod    \* ... whose pseudo-hash is 0 modulo EmitMod (1: every graph)
 
 NonRoot == 1..M
 Change == 0..M
@@ -110,5 +111,13 @@ CaseOf(G) ==
         tips  |-> SetSeq(v.tips),
         rej   |-> SetSeq(e.rejected)]
 
-EmitInv == (Emit /\ pc = "idle") => PrintT(<<"CASE", ToJson(CaseOf(store))>>)
+\* A deterministic pseudo-hash of a graph, to emit a spread-out sample of a large enumeration.
+RECURSIVE SumSet(_)
+SumSet(S) == IF S = {} THEN 0 ELSE LET x == CHOOSE x \in S : TRUE IN x + SumSet(S \ {x})
+ClsIdx(k) == CASE k = "ok" -> 0 [] k = "guest" -> 1 [] k = "needs" -> 2 [] k = "badSig" -> 3
+               [] k = "rejectFirst" -> 4 [] k = "rejectLater" -> 5 [] OTHER -> 6
+HashOf(G) == SumSet({(c * c + 1) * (7 * G.ts[c] + 13 * ClsIdx(G.cls[c]) + 31 * SumSet({d + 1 : d \in G.deps[c]}) + 3 * G.tgt[c])
+                     : c \in NonRoot})
+
+EmitInv == (Emit /\ pc = "idle" /\ HashOf(store) % EmitMod = 0) => PrintT(<<"CASE", ToJson(CaseOf(store))>>)
 =============================================================================
